@@ -158,6 +158,7 @@ func Programs() []Program {
 		add("pairs:global-untyped", fmt.Sprintf("let G = %s;\nfn main() { println(G); }\n", e))
 		add("pairs:spawn", fmt.Sprintf("fn main() { let h = spawn %s; }\n", e))
 		add("pairs:trigger", fmt.Sprintf("import trigger minute from triggers;\nfn main() { trigger %s at minute(%s); }\n", e, e))
+		add("pairs:trigger-in-branch", fmt.Sprintf("import trigger minute from triggers;\nfn main() { print(if true { 2 } else if true { trigger %s at minute(1); }); let w = { trigger %s at minute(2); }; }\n", e, e))
 		add("pairs:annotation", fmt.Sprintf("import trigger minute from triggers;\n#[trigger at minute(%s)]\nevent fn cb(e: int) {}\nfn main() {}\n", e))
 		add("pairs:impl", fmt.Sprintf("import templ FooFeature from templates;\n$D = { n: int };\nimpl FooFeature with { light } for $D {\n    fn dim(self: $D, percent: int) -> bool { %s }\n}\nfn main() {}\n", e))
 		// a place whose type is (or contains) `any`, assigned to NESTED inside the positions where the analyzer
